@@ -116,3 +116,21 @@ Example C06_nonvacuous :
   serialize ex_t ex_v false = Ok [16; 2; 3; 0; 0; 0; 5; 224; 3; 3; 0; 0; 0; 0; 0; 0; 3; 226; 130; 172] /\
   canon ex_t ex_v = VStruct [VInt (-16); VList [VStruct [VInt 5; VFlt 9218868437227405312 (* +inf *)]; VStruct [VInt 0; VFlt 0]]; VList [VInt 226; VInt 130; VInt 172]].
 Proof. vm_compute. repeat split; reflexivity. Qed.
+
+(* float casts are modelled by integer arithmetic (Serdes/Float.v: round to nearest even, clamp to +-max finite when saturated,
+   +-infinity on overflow when truncated, NaN and infinities pass) and compared bit-exactly with struct.pack on every case; the
+   range fact below is what the round trip needs.  The rounding function itself is not verified against IEEE 754 (trusted base). *)
+From PV Require Import Serdes.Float Serdes.FloatProofs.
+Theorem C06_cast_float_range_partial : forall c w b, w = 16 \/ w = 32 \/ w = 64 -> 0 <= fcast c w b < 2 ^ w.
+Proof. exact fcast_range. Qed.
+Print Assumptions C06_cast_float_range_partial.
+
+Example C06_float_cases :
+  (* 65520.0 is the rounding boundary of binary16: truncated -> +inf, saturated -> 65504 = 0x7BFF; just below rounds to 65504 *)
+  fcast Trunc 16 4679237813814689792 = 31744 /\ fcast Sat 16 4679237813814689792 = 31743 /\ fcast Trunc 16 4679237812440300257 = 31743 /\
+  (* -1e39 overflows binary32: truncated -> -inf, saturated -> -max *)
+  fcast Trunc 32 14413632652858640925 = 4286578688 /\ fcast Sat 32 14413632652858640925 = 4286578687 /\
+  (* infinities and NaN pass in both modes; tiny values become subnormal / zero *)
+  fcast Sat 16 9218868437227405312 = 31744 /\ fcast Sat 32 18442240474082181120 = 4286578688 /\ fcast Sat 16 9221120237041090560 = 32256 /\
+  fcast Trunc 16 4487126258331716666 = 0 /\ fcast Trunc 64 1 = 1 /\ fwiden 16 1 = 4499096027743125504.
+Proof. vm_compute. repeat split; reflexivity. Qed.
